@@ -46,6 +46,9 @@ def _series(values, dtype):
         return pd.Series(list(values), dtype="object")
     if dtype == "category":
         return pd.Series(list(values), dtype="object").astype("category")
+    if isinstance(dtype, str) and dtype.startswith("cat:"):
+        parts = dtype.split(":")
+        return pd.Series(pd.Categorical(list(values), categories=[x for x in parts[1].split(",") if x], ordered=(len(parts) > 2 and parts[2] == "o")))
     return pd.Series(list(values), dtype=dtype)
 
 
